@@ -204,8 +204,17 @@ impl WriterBench {
     net::capture_end()
   }
 
+  /// The reader requests the durability the writer offers (so a TransientLocal writer serves it its history).
   pub fn match_reader(&mut self, guid: [u8; 16], reliable: bool, addr: SocketAddr) {
-    let q = QosPolicyBuilder::new().reliability(rel(reliable)).build();
+    let tl = self.cfg.transient_local;
+    self.match_reader_d(guid, reliable, tl, addr)
+  }
+  /// `tl_reader` false: the reader requests Durability Volatile.
+  pub fn match_reader_d(&mut self, guid: [u8; 16], reliable: bool, tl_reader: bool, addr: SocketAddr) {
+    let q = QosPolicyBuilder::new()
+      .reliability(rel(reliable))
+      .durability(if tl_reader { policy::Durability::TransientLocal } else { policy::Durability::Volatile })
+      .build();
     let mut rp = RtpsReaderProxy::new(GUID::from_bytes(guid), q.clone(), false);
     rp.unicast_locator_list = vec![Locator::from(addr)];
     self.writer.update_reader_proxy(&rp, &q);
